@@ -723,13 +723,18 @@ End RecGen.
 
 (* ---- the invariant that makes the stability lemmas applicable along a history:
    nodes owned by the txn carry channels allocated by the txn (>= next0), ids bounded and monotone ---- *)
+
+Definition Fr (next0 a : N) : Prop := next0 <= a.
+
 Section Inv.
 Variable c : ctx.
 Hypothesis Hc0 : c_tid c <> 0.
 Variable next0 : N.
-Definition Fr (a : N) : Prop := next0 <= a.
-Notation privF := (privF c Fr).
-Notation privF_ch := (privF_ch c Fr).
+(* F: "allocated by the txn"; every channel handed out by the allocator from next0 on satisfies it *)
+Variable F : N -> Prop.
+Hypothesis HF : forall a, next0 <= a -> F a.
+Notation privF := (privF c F).
+Notation privF_ch := (privF_ch c F).
 
 Lemma node_tid_le T n : tids_le T n -> node_tid n <= T.
 Proof. destruct n; simpl; [lia|tauto]. Qed.
@@ -746,16 +751,16 @@ Lemma node_tid_set_prefix n q : node_tid (set_prefix n q) = node_tid n.
 Proof. destruct n; reflexivity. Qed.
 
 Lemma fresh_inv s : next0 <= s_next s ->
-  (fst (fresh c s) = 0 \/ Fr (fst (fresh c s))) /\ next0 <= s_next (snd (fresh c s)).
-Proof. unfold fresh, Fr. destruct (c_ro c); simpl; intros; split; auto; lia. Qed.
+  (fst (fresh c s) = 0 \/ F (fst (fresh c s))) /\ next0 <= s_next (snd (fresh c s)).
+Proof. unfold fresh. destruct (c_ro c); simpl; intros; split; auto; try lia; right; apply HF; lia. Qed.
 Lemma fresh_if_inv w s : next0 <= s_next s ->
-  (fst (fresh_if w s) = 0 \/ Fr (fst (fresh_if w s))) /\ next0 <= s_next (snd (fresh_if w s)).
-Proof. unfold fresh_if, Fr. destruct (w =? 0); simpl; intros; split; auto; lia. Qed.
+  (fst (fresh_if w s) = 0 \/ F (fst (fresh_if w s))) /\ next0 <= s_next (snd (fresh_if w s)).
+Proof. unfold fresh_if. destruct (w =? 0); simpl; intros; split; auto; try lia; right; apply HF; lia. Qed.
 Lemma record_next w s : s_next (record w s) = s_next s.
 Proof. unfold record. destruct (w =? 0); reflexivity. Qed.
-Lemma clone_hdr_inv s t w : (t = c_tid c -> w = 0 \/ Fr w) -> next0 <= s_next s ->
+Lemma clone_hdr_inv s t w : (t = c_tid c -> w = 0 \/ F w) -> next0 <= s_next s ->
   let r := clone_hdr c s t w in
-  fst (fst r) = c_tid c /\ (snd (fst r) = 0 \/ Fr (snd (fst r))) /\ next0 <= s_next (snd r).
+  fst (fst r) = c_tid c /\ (snd (fst r) = 0 \/ F (snd (fst r))) /\ next0 <= s_next (snd r).
 Proof.
   intros Hp Hs. unfold clone_hdr. destruct (N.eqb_spec t (c_tid c)) as [E|E]; cbn [fst snd]; [auto|].
   pose proof (fresh_inv (record w s)) as Fi. rewrite record_next in Fi. specialize (Fi Hs).
@@ -875,7 +880,7 @@ Definition dinv (r : dres) : Prop :=
   end.
 
 Lemma remove_child_inv s kd t p w lf ch b :
-  (t = c_tid c -> w = 0 \/ Fr w) -> privF_ch ch -> tmono_ch (c_tid c) ch -> next0 <= s_next s ->
+  (t = c_tid c -> w = 0 \/ F w) -> privF_ch ch -> tmono_ch (c_tid c) ch -> next0 <= s_next s ->
   let r := remove_child c s kd t p w lf ch b in
   next0 <= s_next (snd (fst r)) /\ privF (fst (fst r)) /\ tmono (fst (fst r)).
 Proof.
@@ -916,11 +921,11 @@ Proof.
         destruct CI as (-> & W1 & N1). split; [exact N1|]. split; [split; [intros _; exact W1|exact Hc]|exact Mr].
     + specialize (IH s b (b :: rest) t Hc Hlc Hm Ht Hs).
       pose proof (proj2 (delete_tids c) ch s b (b :: rest) Hlc) as Dt.
-      pose proof (proj2 (del_inplace_owned c Hc0 Fr) ch s b (b :: rest)) as Ipx.
+      pose proof (proj2 (del_inplace_owned c Hc0 F) ch s b (b :: rest)) as Ipx.
       destruct (del_ch c s ch b (b :: rest)) as [|old repl s1 ip] eqn:Ed; [exact I|].
       destruct IH as [N1 IH]. destruct repl as [x'|].
       * destruct IH as [Px Mx]. cbn [dres_tids] in Dt.
-        assert (G : forall t2 w2, t2 = c_tid c -> (w2 = 0 \/ Fr w2) ->
+        assert (G : forall t2 w2, t2 = c_tid c -> (w2 = 0 \/ F w2) ->
                   privF (Inner kd t2 p w2 lf (ch_set b x' ch)) /\ tmono (Inner kd t2 p w2 lf (ch_set b x' ch))).
         { intros t2 w2 -> W2. split.
           - split; auto. now apply privF_ch_set.
